@@ -71,7 +71,15 @@ func (w *foreign64) StatusCode() int {
 	}
 	return w.status
 }
-func (w *foreign64) Size() int64                  { return w.size }
+func (w *foreign64) Size() int64 { return w.size }
+func (w *foreign64) Flush() {
+	if f, ok := w.ResponseWriter.(http.Flusher); ok {
+		if w.status == 0 {
+			w.status = 200
+		}
+		f.Flush()
+	}
+}
 func (w *foreign64) IsObservabilityWrapped() bool { return true }
 
 // foreignBlind carries the marker and exposes nothing.
@@ -98,6 +106,14 @@ func mprog(w http.ResponseWriter, r *http.Request) {
 		_, _ = io.Copy(w, struct{ io.Reader }{bytes.NewReader(body[:n])})
 	case "G":
 		_, _ = io.Copy(w, struct{ io.Reader }{bytes.NewReader(body[:n])})
+	case "L":
+		if f, ok := w.(http.Flusher); ok {
+			f.Flush()
+		} else {
+			w.WriteHeader(200)
+		}
+		w.WriteHeader(st)
+		_, _ = w.Write(body[:n])
 	case "H":
 		w.Header().Set("Link", "</style.css>; rel=preload")
 		w.WriteHeader(http.StatusEarlyHints) // informational: the final status follows
@@ -203,8 +219,8 @@ func mPredict(term string, q MReq) (status, size int, label string) {
 	switch q.Mode {
 	case "E", "H", "F":
 		status, size = q.Status, q.Size
-	case "O", "G":
-		size = q.Size
+	case "O", "G", "L":
+		size = q.Size // L: the Flush committed 200, the later status does not reach the client
 	}
 	if term != "app" {
 		return status, size, ""
@@ -346,7 +362,7 @@ func genMReq(r *hx.Rand) MReq {
 	q := MReq{
 		Method: hx.Pick(r, []string{"GET", "GET", "GET", "POST"}),
 		Path:   hx.Pick(r, []string{"/s", "/s", "/p/1", "/p/zz", "/p/1/2", "/nope", exclPrefix + "ping", exclPrefix + "other", "/"}),
-		Mode:   hx.Pick(r, []string{"E", "E", "E", "Q", "O", "F", "G"}),
+		Mode:   hx.Pick(r, []string{"E", "E", "E", "Q", "O", "F", "G", "L"}),
 	}
 	q.Status = hx.Pick(r, []int{200, 201, 204, 301, 400, 404, 418, 500, 503})
 	q.Size = r.Range(0, 300)
@@ -372,5 +388,8 @@ func mWitnesses() []Case {
 		{Kind: "M", Term: "app", Stack: []string{"T"}, MH: []MReq{{Method: "GET", Path: "/s", Mode: "F", Status: 200, Size: 2000}, {Method: "GET", Path: "/p/1", Mode: "G", Size: 300}}},
 		{Kind: "M", Term: "app", Stack: []string{"M"}, MH: []MReq{{Method: "GET", Path: "/s", Mode: "G", Size: 1000}}},
 		{Kind: "M", Term: "app", Wire: true, Stack: []string{"T", "M"}, MH: []MReq{{Method: "GET", Path: "/s", Mode: "F", Status: 201, Size: 4096}}},
+		// K08h behind the standalone layers and through a real server
+		{Kind: "M", Term: "app", Wire: true, MH: []MReq{{Method: "GET", Path: "/s", Mode: "L", Status: 500, Size: 4}}},
+		{Kind: "M", Term: "app", Stack: []string{"T"}, MH: []MReq{{Method: "GET", Path: "/p/1", Mode: "L", Status: 404, Size: 9}}},
 	}
 }
